@@ -206,8 +206,22 @@ int bufr_store_tables
 */
    if (dcount > 0) 
       {
-      descriptor = FXY_TO_DESC(1,1,dcount);
-      arr_add( desc_list, (char *)&descriptor );
+/*
+ * a replication descriptor counts up to 255: beyond that the count goes into the data section,
+ * as it does for table B
+ */
+      if (dcount < 256)
+         {
+         descriptor = FXY_TO_DESC(1,1,dcount);
+         arr_add( desc_list, (char *)&descriptor );
+         }
+      else
+         {
+         descriptor = 101000;
+         arr_add( desc_list, (char *)&descriptor );
+         descriptor = 31002;
+         arr_add( desc_list, (char *)&descriptor );
+         }
       descriptor = 300010;
       arr_add( desc_list, (char *)&descriptor );
       if (debug)
@@ -272,6 +286,11 @@ int bufr_store_tables
    if (dcount > 0) 
       {
       EntryTableD **ptr;
+      if (dcount >= 256)
+         {
+         e1 = bufr_fetch_tableB( tbls, 31002 ); 
+         bufr_putbits( bufr, dcount, e1->encoding.nbits );
+         }
       e1 = bufr_fetch_tableB( tbls, 31001 ); 
       e2 = bufr_fetch_tableB( tbls, 30 ); 
       blen = e2->encoding.nbits/8;
